@@ -141,6 +141,14 @@ type c05Env struct {
 	partials map[string]string
 }
 
+// c05Recv has a method that fails with a value in hand, and one that hands its argument back.
+type c05Recv struct{ env *c05Env }
+
+func (r c05Recv) FailV(x interface{}) (T, error) {
+	return newT("value-of-the-failed-method"), r.env.sentinel
+}
+func (r c05Recv) Echo(x interface{}) interface{} { return x }
+
 func c05Ctx(env *c05Env) *plush.Context {
 	ctx := plush.NewContext()
 	ctx.Set("fail", func(id string) (interface{}, error) {
@@ -180,6 +188,11 @@ func c05Ctx(env *c05Env) *plush.Context {
 	ctx.Set("xs", []interface{}{1, 2, 3})
 	ctx.Set("mp", map[string]int{"k": 1})
 	ctx.Set("tt", newT("t"))
+	ctx.Set("rv", c05Recv{env})
+	ctx.Set("failv", func(id string) (T, error) {
+		env.calls++
+		return newT("value-of-the-failed-call"), env.sentinel
+	})
 	ptt := newT("pt")
 	ctx.Set("ptt", &ptt)
 	ctx.Set("cap", func(h plush.HelperContext) (template.HTML, error) {
@@ -215,7 +228,7 @@ func c05Ctx(env *c05Env) *plush.Context {
 	return ctx
 }
 
-const c05Prelude = "<% let uf = fn(a) { return a } %><% let uf2 = fn(a, b) { return b } %><% let ufu = fn(a) { return nopeInBody } %>"
+const c05Prelude = "<% let ufe = fn(rv) { return rv } %><% let uf = fn(a) { return a } %><% let uf2 = fn(a, b) { return b } %><% let ufu = fn(a) { return nopeInBody } %>"
 
 // fault expressions: the failing helper, and instrumented failing operations.
 var c05Faults = []struct {
@@ -244,6 +257,12 @@ var c05Faults = []struct {
 	{"unknown-identifier-in-function-body", `ufu(val("p", 1))`, false},
 	{"unknown-identifier-indexed", `xs[val("p", 0)][nopeAsIndex]`, false},
 	{"contentOf-undefined-name", `contentOf(val("p", "never-defined"))`, false},
+	// the failing call's value is not looked at: a path that goes on after it does not get to run
+	{"fail-helper-followed-by-a-member", `failv("p").Name`, true},
+	{"fail-helper-followed-by-an-index", `failv("p").Tags[0]`, true},
+	{"fail-method-followed-by-a-member", `rv.FailV(val("p", 1)).Name`, true},
+	// an unknown name in a function's body is not forgiven for being spelt like the receiver of the call around it
+	{"unknown-identifier-in-body-named-like-the-receiver", `rv.Echo(ufe(val("p", nil)))`, false},
 }
 
 func c05One(b *core.B, class, tmpl, faultName string, wantSentinel bool, body string) {
